@@ -28,6 +28,16 @@ static const Shared& shared_tokens(const lib::LangEntry& a, const lib::LangEntry
     return cache[key] = s;
 }
 
+// words of `a` that `b` does not recognise although it recognises their 4-letter abbreviation: placed right after that abbreviation they make a phrase
+// that only `a` recognises, while a decoder that remembers "the same token as before" across tokens would still pass it in `b`
+static const std::vector<std::pair<std::string, std::string>>& stutter_words(const lib::LangEntry& a, const lib::LangEntry& b) {
+    static std::map<std::pair<const polyseed_lang*, const polyseed_lang*>, std::vector<std::pair<std::string, std::string>>> cache; auto key = std::make_pair(a.lang, b.lang); auto it = cache.find(key); if (it != cache.end()) return it->second;
+    std::vector<std::pair<std::string, std::string>> v; const lib::LibWords& lw = lib::lib_words(a);
+    if (lw.ok) for (int i = 0; i < 2048; i++) { auto cps = model::codepoints(model::strip_marks(lw.w[i])); if (cps.size() <= 4) continue; cps.resize(4); std::string stem = model::utf8(cps);
+        if (recognised(a, stem) && recognised(b, stem) && recognised(a, lw.w[i]) && !recognised(b, lw.w[i])) v.emplace_back(stem, lw.w[i]); }
+    return cache[key] = v;
+}
+
 // case: s(hex) coin allocfail(0/1) gen
 static std::string oracle(const Case& c) {
     deps::Kit& k = deps::kit(0); k.reset_all(); Evidence& ev = W().ev; polyseed_enable_features((unsigned)c.u("mask", 7));
@@ -110,8 +120,11 @@ static void run() {
             t[0].clear();
         }
         RC_PRE(!t[0].empty());
+        bool stutter = false;
+        if (!C3 && nshared == 16 && *in_range<int>(0, 3) == 0) { bool ab = *in_range<int>(0, 2) == 0; const auto& sw = ab ? stutter_words(*A, *B) : stutter_words(*B, *A);
+            if (!sw.empty()) { const auto& pr = sw[*in_range<size_t>(0, sw.size())]; int i = *in_range<int>(1, 16); t[i - 1] = pr.first; t[i] = pr.second; stutter = true; } }   /* abbreviation, then the word written out: now only one language recognises the phrase */
         Case c; c.set("s", hex(lib::join(t))); c.set("coin", coin); c.set("allocfail", *in_range<unsigned>(0, 2)); if (*in_range<int>(0, 2)) { c.set("prelude", *in_range<unsigned>(1, 8)); c.set("plang", (*in_range<int>(0, 2) ? A : B)->name_en); }
-        c.set("gen", std::string(C3 ? "ambiguous-3-languages:" : nshared < 16 ? "first-words-shared-rest-second-language:" : "ambiguous:") + (aim == 0 ? "valid-in-first" : aim == 1 ? "valid-in-second" : "unaimed")); c.set("mask", 7);
+        c.set("gen", std::string(stutter ? "shared-but-one-word-after-its-abbreviation:" : C3 ? "ambiguous-3-languages:" : nshared < 16 ? "first-words-shared-rest-second-language:" : "ambiguous:") + (aim == 0 ? "valid-in-first" : aim == 1 ? "valid-in-second" : "unaimed")); c.set("mask", 7);
         set_current(c); std::string m = oracle(c); if (!m.empty()) VF_FAIL(c, m);
     });
     // (3) arbitrary text: Unicode scalar values, raw bytes, word soup with 14-18 tokens
